@@ -11,15 +11,38 @@ def _nonfatal(e):
 
 class Ctx:
     """what a property module needs to run extra cases during shrinking/search"""
-    def __init__(self, impl_exes, model_exe):
+    def __init__(self, impl_exes, model_exe, mod=None, tier="quick"):
         self.impl_exes, self.model_exe = impl_exes, model_exe
+        # optional MODEL_SKIP(case) -> bool of the property module: such cases are
+        # implementation-only (e.g. runs far beyond the model's instruction budget);
+        # their model line is the constant SKIPPED and is never compared
+        self.skip = getattr(mod, "MODEL_SKIP", None)
+        # optional CASES_PER_SHARD: modules whose cases are expensive ask for more, smaller shards
+        self.kw = {"per_shard": mod.CASES_PER_SHARD} if hasattr(mod, "CASES_PER_SHARD") else {}
+        # optional SHARD_TIMEOUT (seconds): a shard running longer is replayed case by case and the
+        # hanging cases become TIMEOUT lines (default: common.py's one hour)
+        # (implementation only: the model cannot hang, it has fuel); an int or a dict per tier
+        self.ikw = dict(self.kw)
+        if hasattr(mod, "SHARD_TIMEOUT"):
+            t = mod.SHARD_TIMEOUT
+            self.ikw["timeout"] = t.get(tier, 3600) if isinstance(t, dict) else t
 
     def impl(self, cases, profile=None):
         exe = self.impl_exes[profile or sorted(self.impl_exes)[0]]
-        return C.run_impl(exe, cases)
+        return C.run_impl(exe, cases, **self.ikw)
 
     def model(self, cases):
-        return C.run_model(self.model_exe, cases)
+        if self.skip is None:
+            return C.run_model(self.model_exe, cases, **self.kw)
+        keep = [i for i, c in enumerate(cases) if not self.skip(c)]
+        lines = C.run_model(self.model_exe, [cases[i] for i in keep], **self.kw)
+        out = [SKIPPED] * len(cases)
+        for i, l in zip(keep, lines):
+            out[i] = l
+        return out
+
+
+SKIPPED = "SKIPPED"
 
 
 def shrink_case(mod, ctx, case, still_fails, budget=400):
@@ -55,7 +78,7 @@ def run_property(mod, tier="quick", seed=0, replay=None):
         model_exe = C.build_model()
     except C.BuildError as e:
         return _nonfatal("model does not build: %s" % e)
-    ctx = Ctx(impl_exes, model_exe)
+    ctx = Ctx(impl_exes, model_exe, mod, tier)
 
     if replay:
         data = json.load(open(replay))
@@ -70,6 +93,17 @@ def run_property(mod, tier="quick", seed=0, replay=None):
                 msg = mod.oracle(c, il) if hasattr(mod, "oracle") else None
                 print("oracle   :", msg or "ok")
             print("model    :", ctx.model([c])[0][:2000])
+        rel = data.get("related_cases")
+        if rel and hasattr(mod, "cross_oracle") and len(cases) == 1:
+            # the failing case together with the cases it is compared with
+            group = cases + [c for c in rel if c != cases[0]]
+            for p in profiles:
+                lines = ctx.impl(group, p)
+                for c, l in zip(group[1:], lines[1:]):
+                    print("related  :", json.dumps(mod.describe(c))[:2000] if hasattr(mod, "describe") else C.case_line(c)[:2000])
+                    print("impl(%s): %s" % (p, l[:2000]))
+                msgs = [m for i, m in mod.cross_oracle(group, lines)]
+                print("cross    :", "; ".join(msgs)[:2000] or "ok")
         if data.get("broken"):
             print("broken   :", data["broken"])
         return 0
@@ -95,7 +129,7 @@ def run_property(mod, tier="quick", seed=0, replay=None):
     nk = getattr(mod, "KERNEL_SAMPLE", {"quick": 200, "thorough": 2000})[tier]
     idx = list(range(len(cases)))
     random.Random(seed).shuffle(idx)
-    small = [i for i in idx if len(cases[i]) <= getattr(mod, "KERNEL_MAXLEN", 400)]
+    small = [i for i in idx if len(cases[i]) <= getattr(mod, "KERNEL_MAXLEN", 400) and model[i] != SKIPPED]
     kidx = sorted(small[:nk])
     t0 = time.time()
     try:
@@ -131,7 +165,7 @@ def run_property(mod, tier="quick", seed=0, replay=None):
             msg = mod.oracle(c, il)
             if msg:
                 oracle_fail.append((i, p, msg))
-            elif il != ml:
+            elif il != ml and ml != SKIPPED:
                 disagreements.append((i, p))
 
     # cross-case oracle: properties that compare the implementation with itself on
@@ -154,13 +188,20 @@ def run_property(mod, tier="quick", seed=0, replay=None):
         if key in seen_msgs and len(seen_msgs) > 0:
             continue
         seen_msgs.add(key)
-        small_case = shrink_case(mod, ctx, cases[i], fails_oracle) if mod.oracle(cases[i], impl[p][i]) else cases[i]
+        related = mod.related(cases, i) if hasattr(mod, "related") else None
+        if mod.oracle(cases[i], impl[p][i]):
+            small_case = shrink_case(mod, ctx, cases[i], fails_oracle)
+        elif related and hasattr(mod, "shrink_group"):
+            # cross-case failure: the module shrinks the failing case together with its related cases
+            small_case, related = mod.shrink_group(ctx, cases[i], related, p)
+        else:
+            small_case = cases[i]
         il = ctx.impl([small_case], p)[0]
         ml = ctx.model([small_case])[0]
         rep.violation({"case": small_case, "original_case": cases[i], "profile": p,
                        "readable": mod.describe(small_case) if hasattr(mod, "describe") else None,
                        "impl": il, "model": ml, "oracle": mod.oracle(small_case, il) or msg,
-                       "related_cases": (mod.related(cases, i) if hasattr(mod, "related") else None)})
+                       "related_cases": related})
         if len(rep.violations) >= 5:
             break
 
